@@ -125,10 +125,16 @@ def check(name, tier="quick", props=None, seeds=(0,)):
                 print(name, p, tier, "seed", seed, "exit", rc, "violations", len(viol), first[:160])
     finally:
         drop(w)
-        sh("rm -rf %s" % os.path.join(HERE, "replays"))
     meta.setdefault("detection", {}).update(out_all)
     json.dump(meta, open(os.path.join(d, "meta.json"), "w"), indent=1)
     return out_all
+
+
+# checks other than the mutant's own property that plausibly see it too (cross-detection is reported, not required)
+RELATED = {"C01": ["C10", "C12"], "C02": ["C07", "C05"], "C03": ["C11"], "C04": ["C13", "C20"], "C05": ["C02", "C07"], "C06": ["C18"],
+           "C07": ["C02", "C05"], "C08": ["C05"], "C09": ["C20", "C10"], "C10": ["C09", "C01"], "C11": ["C03"], "C12": ["C01", "C19"],
+           "C13": ["C04", "C05"], "C14": ["C05"], "C15": ["C05", "C12"], "C16": ["C20"], "C17": ["C04"], "C18": ["C06", "C19"],
+           "C19": ["C11"], "C20": ["C09", "C16"]}
 
 
 def results_md():
@@ -171,6 +177,16 @@ def main():
                 if verify(name):
                     check(name, tier)
         results_md()
+    elif a[0] == "one":
+        # verify + own check + related checks for one mutant (used by the parallel driver)
+        name = a[1]
+        tier = a[a.index("--tier") + 1] if "--tier" in a else "quick"
+        if verify(name):
+            meta = json.load(open(os.path.join(SEEDED, name, "meta.json")))
+            own = meta["property"]
+            r = check(name, tier, [own])
+            if not any(v.get("exit") == 1 for v in r.values()) or "--related" in a:
+                check(name, tier, RELATED.get(own, []))
     elif a[0] == "results":
         results_md()
 
